@@ -261,7 +261,8 @@ func c18R3(e *Engine) {
 		}
 		instrs(fn, func(in ssa.Instruction) {
 			if al, ok := in.(*ssa.Alloc); ok && al.Heap {
-				if p, ok := al.Type().(*types.Pointer); ok && namedOf(p.Elem()) == nt && nt != nil {
+				// (the allocation of a Table VALUE – a cell that holds a *Table captured by a closure is not one)
+				if p, ok := al.Type().(*types.Pointer); ok && nt != nil && types.Identical(p.Elem(), nt) {
 					e.fail("R3", e.fname(fn)+":fabricates-Table", e.ipos(in), "a core.Table is allocated outside core.NewTable: its containers may be nil or shared")
 				}
 			}
